@@ -14,6 +14,8 @@ correspond  : U-pyformat     Model pyFormat (f/e/g/d, sign, zero fill) vs CPytho
                              Transform._update_values: which of the 12 numbers of a TR input stay a jump) vs the
                              written card, on TR / *TR inputs read with jumps, after is_in_degrees /
                              rotation_matrix / displacement_vector assignments in any order
+              U-transform-history  Model run/writesOf (setters, assignments in the arrays the getters hand out, writes)
+                             vs the live Transform at every write of a history: what it holds (exact) and what it writes
 judge       : the written text of the REAL code: first word re-read by the Lean Spec and by an independent
               Python Fortran reader, compared with the value set (tolerance pinned to 1e-9); integers exact;
               unchanged values verbatim; no fusion with the following word.
@@ -77,6 +79,9 @@ THEOREMS = [
     "C05_transform_entries",
     "C05_transform_written",
     "C05_transform_unit_switch",
+    "C05_transform_history_frame",
+    "C05_transform_history",
+    "C05_transform_inplace_held",
 ]
 
 WORKERS = 8
@@ -570,6 +575,10 @@ def run_impl_tr(case):
             obj = mp.data_from(case["card"])
         except Exception as e:  # noqa: BLE001 - a card MontePy does not read: counted, C12's business
             return dict(out, skip="parse:" + type(e).__name__)
+        try:
+            out["state0"] = _tr_state(obj)  # the transform as it was read (read-only observation)
+        except Exception:  # noqa: BLE001 - no history comparison for this case
+            out["state0"] = None
         outs = []
         applied = []  # the in-place operations that found their entry (a card without matrix has no entry to assign)
         out["applied"] = applied
@@ -714,6 +723,62 @@ def tr_compare_model(o, m):
         if a is not None and not nf.close_pinned(a, nf.to_float(b)):
             return f"entry {p}: written {nf.to_float(a)!r}, model {nf.to_float(b)!r}"
     return None
+
+
+def tr_history_case(case, res):
+    """The history of one transform case for the model (driver unit transform-history): the transform as it was read,
+    the steps that took effect, and for every write the nodes it left (observed before the next write).  None when
+    a state could not be observed or a write raised."""
+    st0, outs = res.get("state0"), res.get("outs", [])
+    if "skip" in res or st0 is None or any(o.get("state") is None or "lines" not in o for o in outs):
+        return None
+    applied = set(res.get("applied", []))
+    ops, k = [], 0
+    for n_op, op in enumerate(case["ops"]):
+        if op[0] in ("deg", "rot", "disp"):
+            ops.append(op)
+        elif op[0] in ("rot_at", "disp_at"):
+            if n_op in applied:
+                ops.append(op)
+        elif op[0] == "rot_back":
+            if n_op in applied:  # handing the same array back through the setter: the assignments into it are the edit
+                ops += [["rot_at", j, v] for j, v in op[1] if j < 9]
+        else:
+            if k >= len(outs):
+                break
+            ops.append(["write", outs[k + 1]["state"]["nodes"] if k + 1 < len(outs) else []])
+            k += 1
+    if k != len(outs):
+        return None
+    return dict(st0, unit="transform-history", ops=ops)
+
+
+def tr_history_compare(res, m):
+    """U-transform-history: at every write, what the model holds after the same steps (unit, both vectors: exact) and
+    the entries it writes against the live transform and the written card.  None when they agree."""
+    if "error" in m or len(m.get("writes", [])) != len(res["outs"]):
+        return "model: " + str(m.get("error", "number of writes"))
+    for k, (o, w) in enumerate(zip(res["outs"], m["writes"])):
+        st = o["state"]
+        if w["read"] != w["held"]:
+            return f"write {k}: C05_transform_history evaluated on the executable model fails"
+        if w["deg"] != st["deg"]:
+            return f"write {k}: unit held"
+        for name in ("disp", "rot"):
+            if [nf.unrat(x) for x in w[name]] != [Fraction(nf.unnum(x)) for x in st[name]]:
+                return f"write {k}: {name} held: impl {[float(nf.unnum(x)) for x in st[name]]}, model {[float(nf.unrat(x)) for x in w[name]]}"
+        d = tr_compare_model(o, w)
+        if d is not None:
+            return f"write {k}: {d}"
+    return None
+
+
+def _tr_history_disagreement(drv, case):
+    res = run_impl_tr(case)
+    if "skip" in res or judge_tr(case, res) is not None:
+        return None
+    h = tr_history_case(case, res)
+    return None if h is None else tr_history_compare(res, drv.batch([h])[0])
 
 
 def shrink_tr_case(case, still_fails):
@@ -1366,7 +1431,9 @@ def run(chk):
         "is_negative assignments and format() calls; API cases parse a real surface/cell/transform/material card, "
         "assign through the public setter and write the card; transform cases parse a TR / *TR input with jumps (j, nJ) "
         "anywhere among its up to 13 entries, assign is_in_degrees / rotation_matrix / displacement_vector in any order "
-        "(values drawn from the defaults of either unit, a pool and random numbers), and write once or twice. Values: integers, halves, 1-17 digit decimals over "
+        "(values drawn from the defaults of either unit, a pool and random numbers), and write once or twice; in-place histories "
+        "write the input, then assign entries IN the arrays the getters hand out (t.rotation_matrix[k] = v, t.displacement_vector[k] = v, "
+        "fetch / modify / hand back through the setter), alone or next to setter assignments, and write again, for 1-3 rounds. Values: integers, halves, 1-17 digit decimals over "
         "1e-300..1e300, ties +- ulps, near-integers, near the old value, +-0.0, random doubles. A case is non-trivial "
         "when a changed value has to be written (not the unchanged-token shortcut); distinct = distinct canonical JSON."
     )
@@ -1584,6 +1651,9 @@ def run(chk):
                 twhere.append((i, k))
     tr_model = batch_par(drv, tstates)
     model_by = dict(zip(twhere, tr_model or []))
+    hist = [(i, h) for i, h in ((i, tr_history_case(c, r)) for i, (c, r) in enumerate(zip(tr, tr_res))) if h is not None]
+    hist_model = batch_par(drv, [h for _, h in hist])
+    hist_by = {i: m for (i, _), m in zip(hist, hist_model or [])}
     shrunk = {}
     for i, (case, res) in enumerate(zip(tr, tr_res)):
         assigned = any(op[0] in ("rot", "disp", "rot_at", "disp_at", "rot_back") for op in case["ops"])
@@ -1621,6 +1691,28 @@ def run(chk):
                 what = judge_tr(mc, rr)[1]
             chk.violation(v[0], what, {"case": mc, "impl": rr})
             continue  # the state of this case is not compared any further
+        if i in hist_by:
+            chk.traces_validated += 1
+            d = tr_history_compare(res, hist_by[i])
+            if d is not None:
+                if chk.disagreements_checked >= MAX_CONFIRM:
+                    chk.count("disagreement-not-rechecked:transform-history")
+                elif _tr_history_disagreement(drv, case) != d:
+                    chk.count("flaky:transform-history")
+                else:
+                    chk.disagreements_checked += 1
+
+                    def hist_differs(c2):
+                        return _tr_history_disagreement(drv, c2) is not None
+
+                    mc = shrink_tr_case(case, hist_differs) if len(chk.broken) < 3 else case
+                    chk.broken_obligation(
+                        "correspondence",
+                        "U-transform-history (Model/TransformWrite.lean run/writesOf vs the live Transform over setters, in-place assignments and writes)",
+                        {"difference": _tr_history_disagreement(drv, mc) or d, "impl": run_impl_tr(mc).get("outs")},
+                        mc,
+                    )
+                continue
         for k, o in enumerate(res.get("outs", [])):
             m = model_by.get((i, k))
             if m is None:
@@ -1653,6 +1745,7 @@ def run(chk):
                 mc,
             )
             break
+    chk.units["U-transform-history"] = {"histories_compared": len(hist)}
     chk.units["U-transform"] = {"corpus": len(TR_CORPUS) + len(file_tr), "random": len(tr) - len(TR_CORPUS) - len(file_tr), "writes_compared": len(tstates)}
     if chk.thorough and not chk.broken:
         leanio.leanchecker(chk, ["MontePyVerif.Props.C05"])
